@@ -8,6 +8,7 @@ import LachesisVerif.Proofs.ElectionComplete
 import LachesisVerif.Proofs.ElectionExample
 import LachesisVerif.Proofs.OrdererFinal
 import LachesisVerif.Proofs.RefEquivG
+import LachesisVerif.Proofs.RefEquivL
 /-!
 # C10 — Consensus output matches an independent reference implementation
 
@@ -48,18 +49,34 @@ Status: PARTIAL proof. Proved below:
   the Prop-level rules on ancestry, forks, the merged highest-before view and forkless cause
   (`reference_anc_eq_rules`, `reference_fork_eq_rules`, `reference_hb_eq_rules`,
   `reference_fc_eq_rules`, `reference_fc_eq_rules_reachable`, `reference_hist_valid`), for every
-  instance built by `Inst.insert` / reached by the oracle.
+  instance built by `Inst.insert` / reached by the oracle;
+* the frame and election part of the executable reference (`Proofs/RefEquivH … RefEquivL`), for the
+  states reached through `process` without seals on checked events (`RefEquiv.Run`; the frame lemmas
+  for every reachable state): `rootsAt` = the roots of the rules, `quorumOn` = quorum of forkless-
+  caused roots (`reference_roots_eq_rules`, `reference_quorumOn_eq_rules`); `allowed` = `Net.Allowed`
+  = C04's `Allowed` = the model's `frameAccepted`, and `process` accepts exactly the allowed frames
+  (`reference_allowed_eq_rules`, `reference_process_accepts_iff_allowed`); `maxFrame`/`build` = the
+  model's `calcFrameIdx` = the highest allowed frame ≤ spf + 100 (`reference_build_max`);
+  `votesOfFrame` computes `voteYes` and the decisions `DecidesYes/No` (`reference_votes_eq_rules`);
+  `atroposSpec f = .atropos a ↔ IsAtropos f a`, "undecided" ↔ no Atropos, "all no" impossible
+  (`reference_atropos_eq_rules`); `decideLoop` emits exactly the blocks (frame k, Atropos of frame k)
+  for k = ldf + 1, … while an Atropos exists (`reference_decideLoop_eq_rules`,
+  `reference_blocks_eq_rules`, with the cheater lists = the stored fork masks = `ForkSeen`); hence
+  `C10_model_eq_reference_partial`: for every parents-first order of one epoch the model's decided
+  `(frame, Atropos)` list = the reference's block `(frame, Atropos)` list (`_canon`: all graph
+  hypotheses discharged by the run itself).
 
 Hypotheses of the L5 theorems beyond "valid events, forkers below one third" (`OrdererProofs.Ctx`):
 the forkless-cause oracle answers `N.FC` (C05), the validator record is canonical with total
 ≤ 2^31-1 (C12), accepted frames are < 2^31, the application never seals (one epoch).
 
-NOT proved: the frame/election part of the executable reference (`rootsAt`, `quorumOn`, `allowed`,
-`votesOfFrame`, `atroposSpec`, `decideLoop`) versus the Prop-level rules — so "model blocks =
-reference blocks" is proved against the Prop-level rules only; cheaters and confirmed events of a
-block (C03/C02), several epochs / sealing (C09), restarts (C08). That the accepted frames and the
-forkless-cause index of the real code are the graph ones is C04 / C05. The equality "real code =
-this model = reference `Spec.Lachesis`" is checked three ways on every scenario of the `cons` stream.
+NOT proved: several epochs / sealing (C09; `decideLoop` with a seal, the fresh instance of the next
+epoch), restarts (C08); the confirmed-event lists of the blocks are the subject of C02 (the
+reference's `events` field: see `Props/C02.lean` if a corollary is present there), the cheater lists
+of C03 (`C03_reference_cheaters`). That the accepted frames and the forkless-cause index of the real
+code are the graph ones is C04 / C05. The equality "real code = this model = reference
+`Spec.Lachesis`" is checked three ways on every scenario of the `cons` stream; inside Lean
+"model = reference" is now closed for the `(frame, Atropos)` sequence of one epoch.
 -/
 namespace C10
 open Model.Pos Model.Election
@@ -562,6 +579,198 @@ theorem reference_hist_valid {ep : Nat} {vals : List (Nat × Nat)} {evs : List E
 /-- non-vacuity: a concrete instance (2 validators, 3 events) built with `insert` -/
 example : Built 1 RefEquiv.exVals exEvs exInst ∧ GoodBuilt 1 RefEquiv.exVals exEvs exInst := ⟨exBuilt, exGoodBuilt⟩
 end Reference
+
+/-! ### (8) the frame and election part of the executable reference; model = reference -/
+section ReferenceElection
+open Spec.Lachesis RefEquiv VecProofs ElectionRules OrdererProofs Model.Orderer
+open Spec.Lachesis.Inst (Block)
+
+/-- `rootsAt f` lists exactly the positions with `IsRoot · f`, ascending (each once) — for every state
+    the oracle reaches (seals included) -/
+theorem reference_roots_eq_rules {s : Inst} (hr : Reach s) (f : Nat) :
+    (∀ r, r ∈ s.rootsAt f ↔ (netOf s).IsRoot r f) ∧ (s.rootsAt f).Pairwise (· < ·) :=
+  ⟨fun _ => mem_rootsAt hr.good.inv, rootsAt_pairwise s f⟩
+
+/-- `quorumOn i f`: the roots of frame `f` other than `i` that `i` forkless-causes hold a quorum by
+    creator — the quantity of `Net.Allowed`; frame 0 never has a quorum -/
+theorem reference_quorumOn_eq_rules {s : Inst} (hr : Reach s) {i : Nat} (hi : i < s.size) (f : Nat) :
+    (s.quorumOn i f = true ↔ (netOf s).quorum ≤ (netOf s).causedWeight i f (fun r => r ≠ i)) ∧
+    s.quorumOn i 0 = false :=
+  ⟨quorumOn_iff hr.good hi f, quorumOn_zero s i⟩
+
+/-- the frame check. In a run of the reference (`Run`: one epoch, no seals, checked events), for the
+    next checked event `e` that `insert` can place (giving `s1`; `e` sits at position `s.size`):
+    `allowed` = the frame rule `Net.Allowed` of the rules = C04's `Allowed` on `quorumOn` and the
+    self-parent frame = the model's `frameAccepted`; and once it passes, all frames are accepted -/
+theorem reference_allowed_eq_rules {ep : Nat} {vals : List (Nat × Nat)} {evs : List Ev} {s s1 : Inst}
+    {out : List Block} {e : Ev} (hrun : Run ep vals evs s out) (hge : GoodEv s e) (h : s.insert e = some s1) :
+    (s1.allowed s.size = true ↔ (netOf s1).Allowed s.size e.frame) ∧
+    (s1.allowed s.size = true ↔ C04.Allowed (s1.quorumOn s.size) (s1.selfParentFrame e) e.frame) ∧
+    s1.allowed s.size = Model.Election.frameAccepted (s1.quorumOn s.size) (s1.selfParentFrame e) e.frame ∧
+    (s1.allowed s.size = true → (netOf s1).FramesAccepted) := by
+  have I := run_inv hrun
+  have hev := ev_insert_new h
+  have hsp : 1 < (s1.ev s.size).seq → (s1.ev s.size).parents ≠ [] → 1 ≤ s1.selfParentFrame (s1.ev s.size) := by
+    rw [hev]; exact fun h1 _ => (spf_pos_insert I.good I.valid I.fa hge h h1).2
+  have h2 := allowed_iff_C04 s1 s.size hsp
+  have h3 := allowed_eq_frameAccepted s1 s.size hsp
+  rw [hev] at h2 h3
+  exact ⟨(framesAccepted_insert I.good I.valid I.fa hge h).1, h2, h3,
+    (framesAccepted_insert I.good I.valid I.fa hge h).2⟩
+
+/-- `process` accepts exactly the allowed frames: an event of the current epoch that `insert` can
+    place is accepted iff its claimed frame obeys the frame rule, otherwise answered "wrong frame"
+    with the instance unchanged -/
+theorem reference_process_accepts_iff_allowed {ep : Nat} {vals : List (Nat × Nat)} {evs : List Ev}
+    {s s1 : Inst} {out : List Block} {e : Ev} (hrun : Run ep vals evs s out) (hge : GoodEv s e)
+    (hep : e.epoch = s.epoch) (h : s.insert e = some s1) :
+    ((∃ s' bs, process [] s e = (s', .ok bs)) ↔ (netOf s1).Allowed s.size e.frame) ∧
+    (process [] s e = (s, .wrongFrame) ↔ ¬ (netOf s1).Allowed s.size e.frame) := by
+  have h1 := (reference_allowed_eq_rules hrun hge h).1
+  have h2 := process_accepts_iff [] hep h
+  refine ⟨h2.1.trans h1, h2.2.trans ?_⟩
+  rw [← h1]
+  exact ⟨fun h => by rw [h]; exact Bool.false_ne_true, fun h => by simpa using h⟩
+
+/-- `build` assigns the model's `calcFrameIdx` = the highest allowed frame, at most 100 above the
+    self-parent's (frames < 2^31) -/
+theorem reference_build_max {s s1 : Inst} {e : Ev} (h : s.insert e = some s1)
+    (hb : s1.selfParentFrame e < 2147483648) :
+    Spec.Lachesis.build s e = some (s1.maxFrame s.size) ∧
+    s1.maxFrame s.size = Model.Election.calcFrameIdx (s1.quorumOn s.size) (s1.selfParentFrame e) 0 false ∧
+    C04.Allowed (s1.quorumOn s.size) (s1.selfParentFrame e) (s1.maxFrame s.size) ∧
+    s1.maxFrame s.size ≤ max 1 (s1.selfParentFrame e + 100) ∧
+    ∀ f, C04.Allowed (s1.quorumOn s.size) (s1.selfParentFrame e) f → f ≤ s1.selfParentFrame e + 100 →
+      f ≤ s1.maxFrame s.size := by
+  have hev := ev_insert_new h
+  have hb' : s1.selfParentFrame (s1.ev s.size) < 2147483648 := by rw [hev]; exact hb
+  have h1 := maxFrame_eq_calcFrameIdx s1 s.size hb'
+  have h2 := maxFrame_spec s1 s.size hb'
+  rw [hev] at h1 h2
+  exact ⟨by unfold Spec.Lachesis.build; rw [h], h1, h2⟩
+
+/-- votes: the table that `electionFrom` computes for the roots of frame `f + k` (`votesAt s f k`:
+    round 1 by `votesOfFrame` from nothing, round `k + 1` from round `k`) holds, for every root `r`
+    of that frame and every validator `v`: `yes ↔ voteYes f k r v`; `decided ↔ DecidesYes ∨ DecidesNo`,
+    a decided yes being a `DecidesYes` and a decided no a `DecidesNo`; a yes-vote carries a root of `v`
+    in frame `f` forkless-caused by a root of frame `f + 1` -/
+theorem reference_votes_eq_rules {ep : Nat} {vals : List (Nat × Nat)} {evs : List Ev} {s : Inst}
+    {out : List Block} (hrun : Run ep vals evs s out) (f k : Nat) (hk : 1 ≤ k) {r v : Nat}
+    (hr : (netOf s).IsRoot r (f + k)) (hv : v < s.nv) :
+    let vt := Inst.lookupVote (votesAt s f k) r v
+    (vt.yes = true ↔ (netOf s).voteYes f k r v) ∧
+    (vt.decided = true ↔ ((netOf s).DecidesYes f k r v ∨ (netOf s).DecidesNo f k r v)) ∧
+    (vt.decided = true → vt.yes = true → (netOf s).DecidesYes f k r v) ∧
+    (vt.decided = true → vt.yes = false → (netOf s).DecidesNo f k r v) ∧
+    (vt.yes = true → (netOf s).IsRoot vt.obs f ∧ (netOf s).creator vt.obs = v ∧
+      ∃ r1, (netOf s).IsRoot r1 (f + 1) ∧ (netOf s).FC r1 vt.obs) := by
+  have I := run_inv hrun
+  obtain ⟨h1, h2, h3, h4, h5⟩ := votesAt_ok I.good I.fa f k hk r v ((mem_rootsAt I.good.inv).2 hr) hv
+  refine ⟨h1, ⟨fun hd => ?_, h4⟩, h2, h3, h5⟩
+  cases hy : (Inst.lookupVote (votesAt s f k) r v).yes with
+  | true => exact Or.inl (h2 hd hy)
+  | false => exact Or.inr (h3 hd hy)
+
+/-- the election: in every state of a run, `atroposSpec f` returns root `a` exactly when `a` is the
+    Atropos of frame `f` by the rules (← needs BFT: uniqueness, L2/L4); it returns "undecided" exactly
+    when frame `f ≥ 1` has no Atropos, and never "all no" (L6); without BFT: a returned root is the
+    Atropos, "undecided" means that the first validator not decided "no" is undecided -/
+theorem reference_atropos_eq_rules {ep : Nat} {vals : List (Nat × Nat)} {evs : List Ev} {s : Inst}
+    {out : List Block} (hrun : Run ep vals evs s out) (f : Nat) :
+    (∀ a, s.atroposSpec f = .atropos a → (netOf s).IsAtropos f a) ∧
+    (s.atroposSpec f = .undecided → s.nv = 0 ∨ ∃ v, v < s.nv ∧ (∀ u, u < v → (netOf s).DecidedNo f u) ∧
+      ¬ (netOf s).DecidedYes f v ∧ ¬ (netOf s).DecidedNo f v) ∧
+    (s.atroposSpec f = .allNo → ∀ u, u < s.nv → (netOf s).DecidedNo f u) ∧
+    ((netOf s).BFT → (∀ a, s.atroposSpec f = .atropos a ↔ (netOf s).IsAtropos f a) ∧
+      (1 ≤ f → (s.atroposSpec f = .undecided ↔ ∀ a, ¬ (netOf s).IsAtropos f a) ∧ s.atroposSpec f ≠ .allNo)) := by
+  have I := run_inv hrun
+  exact ⟨fun a => atroposSpec_sound I.good I.valid I.fa, atroposSpec_undecided I.good I.valid I.fa,
+    atroposSpec_allNo I.good I.valid I.fa,
+    fun hbft => ⟨atroposSpec_iff I.good I.valid I.fa hbft f,
+      fun hf => ⟨atroposSpec_undecided_iff I.good I.valid I.fa hbft hf,
+        atroposSpec_ne_allNo I.good I.valid I.fa hbft hf⟩⟩⟩
+
+/-- `decideLoop` (no seals) from any state of a run: it emits `n` blocks, for the frames
+    `ldf + 1, …, ldf + n`, block `j` carrying the protocol number of the Atropos of frame
+    `ldf + 1 + j` (and as cheaters the ids of the validators in the stored fork mask of the Atropos),
+    only advances `ldf` by `n` and `confirmed`, and — unless the fuel ran out — under BFT frame
+    `ldf + n + 1` has no Atropos. (In `process` the fuel `size + 2` never runs out:
+    `reference_blocks_eq_rules`.) -/
+theorem reference_decideLoop_eq_rules {ep : Nat} {vals : List (Nat × Nat)} {evs : List Ev} {s : Inst}
+    {out : List Block} (hrun : Run ep vals evs s out) (fuel : Nat) (acc : List Block) :
+    ∃ n c bs, decideLoop [] fuel s acc = ({ s with ldf := s.ldf + n, confirmed := c }, acc ++ bs) ∧
+      bs.length = n ∧
+      (∀ j (h : j < bs.length), (bs[j]).frame = s.ldf + 1 + j ∧ ∃ a, a < s.size ∧
+        (bs[j]).atropos = (s.ev a).n ∧ (netOf s).IsAtropos (s.ldf + 1 + j) a ∧
+        (bs[j]).cheaters = ((List.range s.nv).filter (fun v => Spec.Lachesis.bit (s.forksOf a) v)).map s.idOf) ∧
+      (n = fuel ∨ ((netOf s).BFT → ∀ a, ¬ (netOf s).IsAtropos (s.ldf + n + 1) a)) := by
+  have I := run_inv hrun
+  obtain ⟨n, c, bs, h1, h2, h3, h4⟩ := decideLoop_spec fuel s acc I.good I.valid I.fa
+  refine ⟨n, c, bs, h1, h2, fun j hj => ?_, h4⟩
+  obtain ⟨a1, _, _, a, a2, a3, a4, a5⟩ := blocksFrom_get s s.ldf bs h3 j hj
+  exact ⟨a1, a, a2, a3, a4, a5⟩
+
+/-- the block sequence of a run of the reference = the block sequence of the rules: `ldf` blocks;
+    block `i` has frame `i + 1`, is not sealed, carries the protocol number of the Atropos of frame
+    `i + 1` and, as cheaters, the ids (canonical order) of exactly the validators with a fork visible
+    in the ancestry of that Atropos; under BFT frame `ldf + 1` has no Atropos (the loop stopped
+    because nothing more is decidable, not for lack of fuel) -/
+theorem reference_blocks_eq_rules {ep : Nat} {vals : List (Nat × Nat)} {evs : List Ev} {s : Inst}
+    {out : List Block} (hrun : Run ep vals evs s out) :
+    s.ldf = out.length ∧
+    (∀ i (h : i < out.length), (out[i]).frame = i + 1 ∧ (out[i]).sealed = false ∧
+      ∃ a, a < s.size ∧ (out[i]).atropos = (s.ev a).n ∧ (netOf s).IsAtropos (i + 1) a ∧
+        (out[i]).cheaters = ((List.range s.nv).filter (fun v => Spec.Lachesis.bit (s.forksOf a) v)).map s.idOf ∧
+        ∀ v, Spec.Lachesis.bit (s.forksOf a) v = true ↔ ForkSeen (histOf s) a v) ∧
+    ((netOf s).BFT → ∀ a, ¬ (netOf s).IsAtropos (out.length + 1) a) :=
+  reference_blocks hrun
+
+/-- `C10_model_eq_reference_partial`: model blocks = reference blocks for one epoch.
+    Let the executable reference accept the checked events `evs` (`Run`: started from
+    `start ep rvals` = `Inst.fresh`, through `process` without seals), ending in state `s` with the
+    blocks `out`. Let the implementation-level model (`Model.Orderer.process` via `runIds`) process the
+    events of the net of `s` in ANY parents-first order `ids` covering all of them, under `Ctx`.
+    Then the model accepts every event, ends with the same last decided frame, and its decided
+    `(frame, Atropos)` list is the reference's block `(frame, Atropos)` list (the reference names the
+    Atropos by protocol number: `(s.ev a).n` for the model's position `a`).
+    `_partial`: one epoch, no seals; `(frame, Atropos)` only (cheaters: `reference_blocks_eq_rules` /
+    C03; confirmed events: C02); hypotheses `Ctx` (see `C10_model_eq_reference_canon`). -/
+theorem C10_model_eq_reference_partial {ep : Nat} {rvals : List (Nat × Nat)} {evs : List Ev} {s : Inst}
+    {out : List Block} (hrun : Run ep rvals evs s out) {vals : Vals} {env : Env}
+    (C : Ctx (netOf s) vals env) (mep : Nat) (ids : List Nat) (hpf : PFFrom (netOf s) [] ids)
+    (hall : ∀ e, e < s.size → e ∈ ids) :
+    ∃ sm ds, runIds (netOf s) env ids (initial mep vals) [] = some (sm, ds) ∧ sm.ldf = s.ldf ∧
+      ds.map (fun d => (d.frame, (s.ev d.atropos).n)) = out.map (fun b => (b.frame, b.atropos)) :=
+  model_eq_reference hrun C mep ids hpf hall
+
+/-- the same with every graph hypothesis discharged by the run itself (validity and accepted frames
+    are consequences of `Run`): what remains is BFT, the 31-bit bounds, and the canonical model
+    inputs (`canonVals`, `canonEnv`: oracle = `N.FC`, no seal); the model is fed the events in the
+    order in which the reference accepted them -/
+theorem C10_model_eq_reference_canon {ep : Nat} {rvals : List (Nat × Nat)} {evs : List Ev} {s : Inst}
+    {out : List Block} (hrun : Run ep rvals evs s out) (hbft : (netOf s).BFT)
+    (hb : FrameBound (netOf s)) (htot : (netOf s).total ≤ 2147483647) (mep : Nat) :
+    ∃ sm ds, runIds (netOf s) (canonEnv (netOf s)) (List.range s.size)
+        (initial mep (ElectionRefine.canonVals (netOf s))) [] = some (sm, ds) ∧ sm.ldf = s.ldf ∧
+      ds.map (fun d => (d.frame, (s.ev d.atropos).n)) = out.map (fun b => (b.frame, b.atropos)) :=
+  model_eq_reference_canon hrun hbft hb htot mep
+
+/-- what a run is: its events are the instance's events, its validators never change, and the
+    reference's own constructor starts one -/
+theorem reference_run_facts {ep : Nat} {rvals : List (Nat × Nat)} {evs : List Ev} {s : Inst}
+    {out : List Block} (hrun : Run ep rvals evs s out) (pairs : List (Nat × Nat)) :
+    s.evs.toList = evs ∧ s.vals = rvals ∧ Valid s.nv (histOf s) ∧ (netOf s).FramesAccepted ∧
+    Run ep (canonVals pairs) [] (Inst.fresh ep pairs) [] :=
+  ⟨run_evs hrun, run_vals hrun, (run_inv hrun).valid, (run_inv hrun).fa, Run.nil⟩
+
+/-- non-vacuity: a run (one validator, one accepted event) satisfying all hypotheses of
+    `C10_model_eq_reference_canon` -/
+example : ∃ s out, Run 1 exV1 [exE0] s out ∧ (netOf s).BFT ∧ FrameBound (netOf s) ∧
+    (netOf s).total ≤ 2147483647 := by
+  obtain ⟨s, out, h⟩ := exRun1
+  exact ⟨s, out, h, exRun1_hyps h⟩
+
+end ReferenceElection
 
 /-! ### non-vacuity -/
 def exampleElection : Election :=
